@@ -128,9 +128,10 @@ def cases(tier, seed):
     # ill-conditioned systems (cond 1e7..1e10): only the truthfulness of info.residual is decided there, against an
     # extended-precision (80-bit) evaluation of ||Ax-b||/||b||
     for n in (4, 6, 9):
-        for k in (7, 8, 10):
+        for k in (3, 5, 6, 7, 8, 10):
             for kind in ("hh", "mono"):
-                out.append({"key": f"illcond/n={n}/cond=1e{k}/{kind}", "cls": "illcond", "n": n, "scale": 1.0, "k": k, "kind": kind})
+                for rhs in ("generic", "top_singular"):
+                    out.append({"key": f"illcond/n={n}/cond=1e{k}/{kind}/rhs={rhs}", "cls": "illcond", "n": n, "scale": 1.0, "k": k, "kind": kind, "rhs": rhs})
     # unusual-but-legal system matrices (skipped by run_case when singular or cond > 1e6), generic and unit right-hand sides
     for n in (2, 3, 4):
         for nm in xf_names(n, n):
@@ -254,10 +255,16 @@ def run_illcond(case, seed):
     n, k = case["n"], case["k"]
     fill = G.Fill(seed, stream=hash_tag(case["key"]))
     vals = [10.0 ** (-k * t / (n - 1)) for t in range(n)]
-    A = G.with_spectrum(G.unitary(case["kind"], n, fill, variant=1), vals, G.unitary("hh", n, fill, variant=2))
-    b = fill.quat(n, 1, bits=3, lo=-16, hi=16)
-    if not b.any():
-        b[0, 0, 0] = 1.0
+    Uq_ = G.unitary(case["kind"], n, fill, variant=1)
+    A = G.with_spectrum(Uq_, vals, G.unitary("hh", n, fill, variant=2))
+    if case["rhs"] == "top_singular":
+        # b = sigma_1 u_1: the solution is the (small) top right singular vector, so the residual of the ORIGINAL system is
+        # resolved far below the residual of any left-preconditioned system (which is larger by up to cond(A))
+        b = Uq_[:, :1] * vals[0]
+    else:
+        b = fill.quat(n, 1, bits=3, lo=-16, hi=16)
+        if not b.any():
+            b[0, 0, 0] = 1.0
     Aq, bq = G.to_quat(A), G.to_quat(b)
     AL = left4_ld(A)
     bL = np.concatenate([b[:, 0, t].astype(np.longdouble) for t in range(4)])
@@ -279,8 +286,12 @@ def run_illcond(case, seed):
             states.append(digest(case["key"], prec, tol, x))
             if rep is None or not np.isfinite(rep):
                 fails.append(fail("info.residual_truthful", f"prec={prec} tol={tol:g}: info.residual = {rep!r}", **tags))
-            elif rt > 1e-13 and not (rt / 30.0 <= rep <= rt * 30.0):
-                fails.append(fail("info.residual_truthful", f"prec={prec} tol={tol:g}: info.residual = {rep:.3e}, ||Ax-b||/||b|| evaluated in extended precision = {rt:.3e} (cond 1e{k})", **tags))
+            else:
+                # a double-precision evaluation of ||Ax-b||/||b|| is only determined up to 64 u (||A|| ||x|| / ||b|| + 1)
+                noise = 64 * O.U * (O.fro(A) * O.fro(x) / O.fro(b) + 1.0)
+                if abs(rep - rt) > 1e-9 * rt + noise:
+                    fails.append(fail("info.residual_truthful", f"prec={prec} tol={tol:g}: info.residual = {rep:.3e}, ||Ax-b||/||b|| evaluated in extended precision = {rt:.3e} "
+                                      f"(cond 1e{k}, evaluation noise {noise:.1e})", **tags))
             if info.get("converged") and rt > 30 * tol * (10.0 ** k if prec == "left_lu" else 1.0) + 1e-13:
                 fails.append(fail("converged=>small_residual", f"prec={prec} tol={tol:g}: converged=True with true residual {rt:.3e}", **tags))
     return {"key": case["key"], "fails": fails, "nontrivial": True, "digest": digest(A, b), "states": states, "transitions": len(states), "traces": 0 if fails else 1,
